@@ -84,8 +84,12 @@ class Sut:
         except Exception:
             return None
         if kind == 'msg':
+            # children in *list* order (under STRICT the encoding is in structure order instead)
             n = EM.Node('msg', meta['name'])
-            n.kids = EM.segs_from_text(text, meta['ec'])
+            for c in e.children.list:
+                if c.classname != 'Segment':
+                    return None
+                n.kids.append(EM.seg_from_text(c.to_er7(), meta['ec']))
             return n
         if kind == 'grp':
             n = EM.Node('grp', meta['name'])
@@ -228,6 +232,10 @@ class Sut:
             P = self.nav(ri, op['p'])
             sri, spath = op['src']
             child = self.nav(sri, spath)
+            if not hasattr(child, 'children') or child.__class__.__name__ == 'ElementProxy':
+                raise NavError('nothing to re-attach at that path')
+            if P.__class__.__name__ == 'ElementProxy':
+                raise NavError('no parent at that path')
             P.add(child)
             return None
         if k == 'datatype':
@@ -725,9 +733,9 @@ class HistoryWorld:
             except Exception as ex:       # noqa
                 out.append(('walking the tree raises %s' % type(ex).__name__, canon_exc(ex)))
             for sig, detail in out:
-                self.violate('C10.tree', 'after %s %s: %s' % (
-                    'rejected' if s.last_exc is not None and step >= 0 else 'accepted', self.op_key(op), sig),
-                    '%s root %d %s' % (s.tag, ri, detail), step)
+                self.violate('C10.tree', sig, '%s root %d %s (first seen after %s %s)' % (
+                    s.tag, ri, detail, 'rejected' if s.last_exc is not None and step >= 0 else 'accepted',
+                    self.op_key(op)), step)
         # an element must not be listed by two parents across roots either
         owners = {}
         for ri, e in enumerate(s.roots):
@@ -735,9 +743,10 @@ class HistoryWorld:
                 for c in el.children.list:
                     o = owners.get(id(c))
                     if o is not None and o is not el:
-                        self.violate('C10.tree', 'after %s %s: a %s is listed by two parents' % (
-                            'rejected' if s.last_exc is not None and step >= 0 else 'accepted', self.op_key(op), c.classname),
-                            '%s %s under %r and %r' % (s.tag, c.name, o, el), step)
+                        self.violate('C10.tree', 'a %s is listed by two parents' % c.classname,
+                                     '%s %s under %r and %r (first seen after %s %s)' % (
+                                         s.tag, c.name, o, el, 'rejected' if s.last_exc is not None and step >= 0 else 'accepted',
+                                         self.op_key(op)), step)
                     owners[id(c)] = el
         self.probe('c10_checked')
 
